@@ -4,7 +4,7 @@
    cross-check, by vm_compute. *)
 From Coq Require Import String.
 From SQ Require Import Model.Base Model.Text Model.Varint Model.Record Model.Payload
-     Model.Btree Model.Page Model.Float Model.Cmp Model.Header Model.Low.
+     Model.Btree Model.Page Model.Float Model.Cmp Model.Header Model.Low Model.High.
 Open Scope Z_scope.
 
 Definition show_err (e : err) : list byte :=
@@ -113,60 +113,156 @@ Definition run_pure (w : list (list byte)) : option (list (list byte)) :=
 (* ---- commands on a database ---- *)
 Section Db.
   Variable pg : Z -> res (list byte).
-  Variable U : Z.
+  Variable op : Z -> res page.   (* Database.openPage: the parsed page n *)
   Variable npages : nat.
 
   Definition lim (s : list byte) : option Z := let z := read_Z s in if z <=? 0 then None else Some z.
 
-  Definition show_rows (x : flow * list record) : list (list byte) :=
-    map (fun r => B"row " ++ show_record r) (rev_append (snd x) []) ++ [show_flow (fst x)].
-  Definition show_trows (x : flow * list (Z * record)) : list (list byte) :=
-    map (fun r => B"row " ++ show_Z (fst r) ++ B" " ++ show_record (snd r)) (rev_append (snd x) []) ++ [show_flow (fst x)].
+  (* Go's Scan functions return only an error: whether the traversal ended
+     because the caller's callback said "done" is known to the caller alone
+     (it asked to stop iff it has seen its limit of rows) *)
+  Definition caller_flow {A} (limit : option Z) (x : flow * list A) : flow :=
+    match fst x with
+    | Fail e => Fail e
+    | _ => match limit with
+           | Some k => if k <=? Z.of_nat (length (snd x)) then Stop else Continue
+           | None => Continue
+           end
+    end.
+  Definition show_rows (limit : option Z) (x : flow * list record) : list (list byte) :=
+    map (fun r => B"row " ++ show_record r) (rev_append (snd x) []) ++ [show_flow (caller_flow limit x)].
+  Definition show_trows (limit : option Z) (x : flow * list (Z * record)) : list (list byte) :=
+    map (fun r => B"row " ++ show_Z (fst r) ++ B" " ++ show_record (snd r)) (rev_append (snd x) []) ++ [show_flow (caller_flow limit x)].
 
   Definition run_db (w : list (list byte)) : list (list byte) :=
     match w with
     | [cmd] =>
       if bytes_eqb cmd B"master" then
-        let '(f, rows) := master pg U npages in
+        let '(f, rows) := master pg op npages in
         map (fun m => B"obj " ++ hex (m_typ m) ++ B" " ++ hex (m_name m) ++ B" " ++ hex (m_tbl m)
                        ++ B" " ++ show_Z (m_root m) ++ B" " ++ hex (m_sql m)) rows ++ [show_flow f]
       else [B"unknown"]
     | [cmd; root; a] =>
       if bytes_eqb cmd B"scan" then
-        show_trows (table_scan pg U npages _ (read_Z root) (collect_row (lim a)) [])
+        show_trows (lim a) (table_scan pg op npages _ (read_Z root) (collect_row (lim a)) [])
       else if bytes_eqb cmd B"iscan" then
-        show_rows (index_scan pg U npages _ (read_Z root) (collect_rec (lim a)) [])
+        show_rows (lim a) (index_scan pg op npages _ (read_Z root) (collect_rec (lim a)) [])
       else if bytes_eqb cmd B"rowid" then
-        [match table_rowid pg U npages (read_Z root) (read_Z a) with
+        [match table_rowid pg op npages (read_Z root) (read_Z a) with
          | Ok (Some r) => B"found " ++ show_record r
          | Ok None => B"notfound"
          | Err e => B"err " ++ show_err e end]
       else if bytes_eqb cmd B"page" then
         (* page ROOT x : dump a parsed page of the database *)
-        match openp pg U (read_Z root) with
+        match op (read_Z root) with
         | Ok p => show_page p ++ [B"end ok"]
         | Err e => [B"end err " ++ show_err e]
         end
       else [B"unknown"]
     | [cmd; root; a; k] =>
       if bytes_eqb cmd B"imin" then
-        show_rows (index_scan_min pg U npages _ (read_Z root) (read_key k) (collect_rec (lim a)) [])
+        show_rows (lim a) (index_scan_min pg op npages _ (read_Z root) (read_key k) (collect_rec (lim a)) [])
       else if bytes_eqb cmd B"ieq" then
-        show_rows (index_scan_eq pg U npages _ (read_Z root) (read_key k) (collect_rec (lim a)) [])
+        show_rows (lim a) (index_scan_eq pg op npages _ (read_Z root) (read_key k) (collect_rec (lim a)) [])
       else [B"unknown"]
     | [cmd; root; a; k1; k2] =>
       if bytes_eqb cmd B"irange" then
-        show_rows (index_scan_range pg U npages _ (read_Z root) (read_key k1) (read_key k2)
+        show_rows (lim a) (index_scan_range pg op npages _ (read_Z root) (read_key k1) (read_key k2)
                                     (collect_rec (lim a)) [])
       else [B"unknown"]
     | _ => [B"unknown"]
     end.
 End Db.
 
-Definition run_line (pg : Z -> res (list byte)) (U : Z) (npages : nat) (line : list byte)
+(* ---- high level API ---- *)
+(* schema dump: W;R;COLS;PK;PKNAME;INDEXES (see harness/hcommon ShowSchema) *)
+Definition is_dash (s : list byte) : bool := bytes_eqb s B"-".
+Definition read_icol (s : list byte) : icol :=
+  match split_on ":"%byte s [] with
+  | [n; c; d] => {| ic_name := unhex n; ic_coll := unhex c; ic_desc := bytes_eqb d B"d" |}
+  | _ => {| ic_name := []; ic_coll := []; ic_desc := false |}
+  end.
+Definition read_icols (s : list byte) : list icol :=
+  if is_dash s then [] else map read_icol (split_on "+"%byte s []).
+Definition read_tcol (s : list byte) : tcol :=
+  match split_on ":"%byte s [] with
+  | [n; r; d] => {| tc_name := unhex n; tc_rowid := bytes_eqb r B"1"; tc_default := read_value d |}
+  | _ => {| tc_name := []; tc_rowid := false; tc_default := VNull |}
+  end.
+Definition read_sindex (s : list byte) : sindex :=
+  match split_on "="%byte s [] with
+  | [n; cs] => {| si_name := unhex n; si_cols := read_icols cs |}
+  | _ => {| si_name := []; si_cols := [] |}
+  end.
+Definition read_schema (s : list byte) : option schema :=
+  match split_on ";"%byte s [] with
+  | [w; r; cols; pk; pkname; inds] =>
+    Some {| s_worowid := bytes_eqb w B"1";
+            s_cols := if is_dash cols then [] else map read_tcol (split_on ","%byte cols []);
+            s_rowidpk := bytes_eqb r B"1";
+            s_pk := read_icols pk;
+            s_pkname := if is_dash pkname then [] else unhex pkname;
+            s_indexes := if is_dash inds then [] else map read_sindex (split_on "/"%byte inds []) |}
+  | _ => None
+  end.
+Definition read_names (s : list byte) : list (list byte) :=
+  if is_dash s then [] else map unhex (split_on ","%byte s []).
+Definition read_hkey (s : list byte) : list value :=
+  if is_dash s then [] else map read_value (split_on ","%byte s []).
+
+(* every entry point of sqlittle.go takes the read lock and releases it by a
+   deferred call: the events the pager sees around the operation *)
+Definition rlock_events : list byte := B"locks lock,unlock locked=false".
+
+Section Hl.
+  Variable pg : Z -> res (list byte).
+  Variable op : Z -> res page.   (* Database.openPage: the parsed page n *)
+  Variable npages : nat.
+
+  Definition show_hrows (limit : option Z) (x : flow * list row) : list (list byte) :=
+    map (fun r => B"row " ++ show_record r) (rev_append (snd x) []) ++ [show_flow (caller_flow limit x); rlock_events].
+
+  Definition run_hl (w : list (list byte)) : option (list (list byte)) :=
+    match w with
+    | cmd :: sch :: table :: rest =>
+      match read_schema sch with
+      | None => None
+      | Some sc =>
+        let table := unhex table in
+        match rest with
+        | [a; cols] =>
+          if bytes_eqb cmd B"hselect" then
+            Some (show_hrows (lim a) (h_select pg op npages _ (collect_hrow (lim a)) sc table (read_names cols) []))
+          else if bytes_eqb cmd B"hselectrowid" then
+            Some (show_hrows None (h_select_rowid pg op npages _ (collect_hrow None) sc table (read_Z a) (read_names cols) []))
+          else if bytes_eqb cmd B"hiselect" then
+            Some (show_hrows None (h_indexed_select pg op npages _ (collect_hrow None) sc table (unhex a) (read_names cols) []))
+          else if bytes_eqb cmd B"hpkselect" then
+            Some (show_hrows None (h_pk_select pg op npages _ (collect_hrow None) sc table (read_hkey a) (read_names cols) []))
+          else None
+        | [a; k; cols] =>
+          if bytes_eqb cmd B"hiselecteq" then
+            Some (show_hrows None (h_indexed_select_eq pg op npages _ (collect_hrow None) sc table (unhex a) (read_hkey k) (read_names cols) []))
+          else None
+        | _ => None
+        end
+      end
+    | _ => None
+    end.
+End Hl.
+
+(* [op] is the page store: [openp pg U], possibly memoised by the driver *)
+Definition run_line_with (pg : Z -> res (list byte)) (op : Z -> res page) (npages : nat) (line : list byte)
   : list (list byte) :=
   let w := words line in
   match run_pure w with
   | Some out => out
-  | None => run_db pg U npages w
+  | None =>
+    match run_hl pg op npages w with
+    | Some out => out
+    | None => run_db pg op npages w
+    end
   end.
+
+Definition run_line (pg : Z -> res (list byte)) (U : Z) (npages : nat) (line : list byte)
+  : list (list byte) := run_line_with pg (openp pg U) npages line.
